@@ -157,10 +157,6 @@ func fillContainers(containers map[*container.Container][]string) error {
 }
 
 func (s *State) apply(args []string, pc matcher.ParseContext) bool {
-	if s.Terminal && len(args) == 0 {
-		return true
-	}
-
 	if len(args) > 0 {
 		arg := args[0]
 
@@ -168,6 +164,10 @@ func (s *State) apply(args []string, pc matcher.ParseContext) bool {
 			pc.RejectOptions = true
 			args = args[1:]
 		}
+	}
+
+	if s.Terminal && len(args) == 0 {
+		return true
 	}
 
 	type match struct {
